@@ -67,7 +67,13 @@ def _run(events: list) -> bool:
                 return True
         s.settle()
         if s.conn.connection_state is not CLOSED:
-            return True  # nothing to audit: the connection is still open
+            # still open: legitimate only while its transport is alive -- once connection_lost has been
+            # delivered (EOF, reset, fatal transport error) the connection has to close and release
+            if any(tr.lost_delivered for tr in s.w.loop.transports):
+                if track.reached():
+                    return False
+                return track.fail(f"the transport is gone (connection_lost was delivered) but the connection did not close: nothing is released; trace={s.trace}")
+            return True  # nothing to audit
         if track.reached():
             return False
         bad = audit(s)
